@@ -49,7 +49,7 @@ func (C12) Meta() core.Meta {
 		Real:        []string{"filippo.io/age Encrypt/Decrypt", "internal/stream", "internal/format", "armor"},
 		Stub:        []string{"destination recorder", "ciphertext source with delivery schedule", "caller's read-buffer schedule", "crypto/rand.Reader (tape)"},
 		FaultKinds:  []string{"fault.damaged_image", "fault.armor_corruption"},
-		Probes:      []string{"probe.empty_write", "probe.write_gt_chunk", "probe.write_ends_on_boundary", "probe.exact_multiple_through_armor", "probe.bufio_lt_4096", "probe.bufio_ge_4096", "probe.data_with_eof", "probe.one_byte_delivery", "probe.zero_len_read", "probe.read_gt_chunk", "probe.outcome_error", "probe.outcome_clean", "probe.multi_chunk"},
+		Probes:      []string{"probe.empty_write", "probe.fed_by_io_copy", "probe.write_gt_chunk", "probe.write_ends_on_boundary", "probe.exact_multiple_through_armor", "probe.bufio_lt_4096", "probe.bufio_ge_4096", "probe.data_with_eof", "probe.one_byte_delivery", "probe.zero_len_read", "probe.read_gt_chunk", "probe.outcome_error", "probe.outcome_clean", "probe.multi_chunk"},
 	}
 }
 
@@ -241,6 +241,10 @@ func (e C12) execEnc(p *C12Plan, c *core.Ctx) *core.Verdict {
 	}
 	off := 0
 	for i, s := range p.Segs {
+		if s < 0 {
+			c.Stats.Inc("probe.fed_by_io_copy")
+			s = len(P) - off
+		}
 		if off+s > len(P) {
 			s = len(P) - off
 		}
